@@ -36,6 +36,8 @@ type (
 		Lo, Hi, Body Expr
 		Sort         string // non-empty: unbounded quantification over this SMT sort
 		Exists       bool
+		Expand       bool // "forall k in [a,b) expand :: body" with literal bounds: a finite conjunction
+		Trig         Expr // optional instantiation pattern: "forall k in [a,b) trigger f(k) :: body"
 	}
 	Ite struct{ C, A, B Expr }
 )
@@ -268,6 +270,11 @@ func (p *parser) primary() Expr {
 				p.expectOp("::")
 				return Forall{Var: v, Body: p.iff(), Sort: "String", Exists: ex}
 			}
+			if p.isKw("int") {
+				p.next()
+				p.expectOp("::")
+				return Forall{Var: v, Body: p.iff(), Sort: "Int", Exists: ex}
+			}
 			if !p.isKw("in") {
 				panic("forall: 'in' expected")
 			}
@@ -277,8 +284,18 @@ func (p *parser) primary() Expr {
 			p.expectOp(",")
 			hi := p.iff()
 			p.expectOp(")")
+			var trig Expr
+			expand := false
+			if p.isKw("expand") {
+				p.next()
+				expand = true
+			}
+			if p.isKw("trigger") {
+				p.next()
+				trig = p.iff()
+			}
 			p.expectOp("::")
-			return Forall{Var: v, Lo: lo, Hi: hi, Body: p.iff(), Exists: ex}
+			return Forall{Var: v, Lo: lo, Hi: hi, Body: p.iff(), Exists: ex, Trig: trig, Expand: expand}
 		case "if":
 			c := p.iff()
 			if !p.isKw("then") {
@@ -332,12 +349,15 @@ func substIdents(x Expr, m map[string]Expr) Expr {
 				m2[k] = v
 			}
 		}
-		f := Forall{Var: n.Var, Sort: n.Sort, Body: substIdents(n.Body, m2), Exists: n.Exists}
+		f := Forall{Var: n.Var, Sort: n.Sort, Body: substIdents(n.Body, m2), Exists: n.Exists, Expand: n.Expand}
 		if n.Lo != nil {
 			f.Lo = substIdents(n.Lo, m)
 		}
 		if n.Hi != nil {
 			f.Hi = substIdents(n.Hi, m)
+		}
+		if n.Trig != nil {
+			f.Trig = substIdents(n.Trig, m2)
 		}
 		return f
 	case Ite:
